@@ -342,9 +342,44 @@ def c18_plan(run, replay=None):
          "TLC, Json module"], exhaustive=not q)
 
 
+# ---------------------------------------------------------------------------------------------- static
+def static_plan(prop, pools_quick, pools_thorough, floors):
+    def plan(run, replay=None):
+        q = run.tier == "quick"
+        run.build_harness()
+        if replay:
+            replay_cases(run, replay, "cases.ndjson")
+        else:
+            for pool in (pools_quick if q else pools_thorough):
+                run.tlc("StaticMC", "ST_%s.cfg" % pool, "design", workers=16, cases_out="cases.ndjson", timeout=2400)
+        s = run.harness("static", ["-in", "cases.ndjson", "-out", "obs.ndjson", "-seed", run.seed], timeout=3000)
+        run.load_inputs("obs.ndjson.inputs")
+        run.validate_trace("GtfsStaticObs", "obs.ndjson", s["cases"], timeout=3000)
+        only(run, [prop + "."] + (["relation-base-parses"] if prop in ("C08", "C09", "C10") else []))
+        if not replay:
+            for name, minimum in floors.items():
+                run.floor(name, run.counters.get(name, 0), minimum)
+        run.counters["distinct_nontrivial"] = run.counters.get("distinct_feeds", 0)
+        return run.finish(
+            "abstract GTFS static feeds (tagged cells per column) from the case pools of spec/StaticMC.tla, each rendered as "
+            "a zip archive (in several byte-level presentations where the case asks for it), parsed by the real ParseStatic "
+            "with the static.accept hook recording which rows produced entities, and projected back (pointers as indices "
+            "into the result's own slices); distinct by the JSON of the feed",
+            ["string/decimal/date pools in harness/internal/st/pools.go; decimal tokens carry the exact float64 of their text",
+             "the rendering is re-read with archive/zip + encoding/csv before it is handed to the parser (self-check)",
+             "TLC, Json module"], exhaustive=True)
+    return plan
+
+
 ZONES = "nil,UTC,America/New_York,Asia/Kolkata,fixed+0545,Pacific/Auckland,fixed-0330"
 
 PLANS = {
+    "C01": static_plan("C01", ["C01"], ["C01"], {"distinct_feeds": 200, "parses": 700}),
+    "C03": static_plan("C03", ["C03stops", "C03refs"], ["C03stops", "C03refs", "C09pairs"], {"distinct_feeds": 3000}),
+    "C08": static_plan("C08", ["C08"], ["C08", "C01"], {"distinct_feeds": 1000}),
+    "C09": static_plan("C09", ["C09"], ["C09", "C09pairs"], {"distinct_feeds": 120}),
+    "C10": static_plan("C10", ["C10"], ["C10"], {"distinct_feeds": 300}),
+    "C11": static_plan("C11", ["C11", "C11b"], ["C11", "C11b"], {"distinct_feeds": 5000}),
     "C18": c18_plan,
     "C06": c06_plan,
     "C13": c13_plan,
